@@ -105,9 +105,25 @@ ParamTypes == {"int", "string", "[]int", "*S", "S", "any", "MyInt"}
 ZeroOf(t) == CASE t \in {"int", "MyInt"} -> "0" [] t = "string" -> "str" [] t \in {"[]int", "*S", "any"} -> "nil" [] t = "S" -> "S{}"
 \* signatures: nreq required int parameters followed by the optional ones
 OptSigs == {<<>>} \cup {<<a>> : a \in ParamTypes} \cup {<<a, b>> : a \in {"int", "S", "[]int"}, b \in ParamTypes}
-R3Points == UNION {UNION {{[rule |-> "optional", nreq |-> n, opts |-> o, given |-> g] : g \in n..(n + Len(o))} : o \in OptSigs} : n \in 0..1}
-R3Lower(p) == [nargs |-> p.nreq + Len(p.opts),
-               zeros |-> [i \in 1..(p.nreq + Len(p.opts) - p.given) |-> ZeroOf(p.opts[p.given - p.nreq + i])]]
+\* src: how the callee got its signature - "func" a function declared with NewFunc (optional flags of the own package),
+\*      "value" a function-typed variable whose signature was built directly, "foreign" a signature whose parameters belong to
+\*      another package (optional = the documented name prefix __xgo_optional_)
+\* tail: "none"; "req" one more required parameter AFTER the optional ones (possible for "value" / "foreign" only: NewFunc rejects
+\*      the order); "variadic" a trailing variadic parameter
+\* Rule: a call with k arguments is completed iff EVERY parameter from k+1 on (the variadic one excepted) is optional; otherwise
+\* it is not an instance of the extension and must be reported (a required argument is never made up).
+R3Base == UNION {UNION {{[rule |-> "optional", nreq |-> n, opts |-> o, given |-> g, src |-> "func", tail |-> "none"] : g \in n..(n + Len(o))} : o \in OptSigs} : n \in 0..1}
+OptSigsX == {<<a>> : a \in {"int", "string"}} \cup {<<"int", "S">>, <<"[]int", "string">>}
+R3Ext == UNION {UNION {UNION {{[rule |-> "optional", nreq |-> n, opts |-> o, given |-> g, src |-> sr, tail |-> tl] :
+                 g \in n..(n + Len(o) + (IF tl = "req" THEN 1 ELSE 0))} : o \in OptSigsX} : n \in 0..1} :
+                 sr \in {"func", "value", "foreign"}, tl \in {"none", "req", "variadic"}}
+            \ {p \in [rule : {"optional"}, nreq : 0..1, opts : OptSigsX, given : 0..4, src : {"func"}, tail : {"none", "req"}] : TRUE}
+R3Points == R3Base \cup R3Ext
+NFixed(p) == p.nreq + Len(p.opts) + (IF p.tail = "req" THEN 1 ELSE 0)        \* parameters other than the variadic one
+R3Lower(p) == IF p.tail = "req" /\ p.given < NFixed(p)
+              THEN [nargs |-> p.given, zeros |-> <<>>, verdict |-> "reject"]
+              ELSE [nargs |-> NFixed(p), verdict |-> "lowered",
+                    zeros |-> [i \in 1..(NFixed(p) - p.given) |-> ZeroOf(p.opts[p.given - p.nreq + i])]]
 
 (* ---------- R4: method alias / auto-property on user types ---------- *)
 R4Points == {[rule |-> "alias", m |-> m, mode |-> md, recv |-> rf] :
@@ -207,7 +223,8 @@ BindOnce == pt.rule = "bti" =>
               /\ Cardinality({i \in 1..Len(Lowered.args) : Lowered.args[i].k = "user"}) = Len(pt.r.uargs)
               /\ (Lowered.args[1].conv # "") = (pt.recv = "named")
 ArityConsistent == pt.rule = "bti" => Len(Lowered.args) = pt.r.arity
-ZeroComplete == pt.rule = "optional" => pt.given + Len(Lowered.zeros) = Lowered.nargs
+ZeroComplete == pt.rule = "optional" => /\ pt.given + Len(Lowered.zeros) = Lowered.nargs
+                                        /\ (Lowered.verdict = "reject") = (\E i \in (pt.given + 1)..NFixed(pt) : i <= pt.nreq \/ i > pt.nreq + Len(pt.opts))
 PlainGo == /\ (pt.rule = "boolcast" => Lowered.form \in {"const", "closure"})
            /\ (pt.rule \in {"bigint", "bigrat"} => Lowered.form \in {"NewInt", "SetString", "NewRat", "SetFrac"})
            /\ (pt.rule = "bti" /\ pt.mode = "autoprop" => Len(pt.r.uargs) = 0)
